@@ -103,12 +103,13 @@ fn one_input(seed: u64, idx: u64, archs: &[Arch], ninits: usize) -> (Value, bool
 }
 
 pub fn gen(out: &mut Out, _sub: &str) {
-    let n = out.size(1200, 40000);
+    let n = out.size(960, 24000);
+    let ninit = out.size(3, 4) as usize;
     let archs = [pblockgen::arch64(), pblockgen::arch32()];
     let mut counts = std::collections::BTreeMap::new();
     let mut panics = 0u64;
     for idx in 0..n {
-        let (input, nontrivial) = one_input(out.seed, idx, &archs, 4);
+        let (input, nontrivial) = one_input(out.seed, idx, &archs, ninit);
         for f in input["feat"].as_array().unwrap() {
             *counts.entry(f.as_str().unwrap().to_string()).or_insert(0u64) += 1;
         }
@@ -120,5 +121,5 @@ pub fn gen(out: &mut Out, _sub: &str) {
     }
     out.extra.insert("feature_counts".to_string(), json!(counts));
     out.extra.insert("lifter_panics".to_string(), json!(panics));
-    out.extra.insert("inits_per_case".to_string(), json!(4));
+    out.extra.insert("inits_per_case".to_string(), json!(ninit));
 }
